@@ -60,16 +60,20 @@ func (p Pattern) Matches(s string) bool {
 	si := 0
 	pl := len(p)
 	sl := len(s)
+	start := true
 	for pi < pl {
 		if si == sl {
 			return false
 		}
 		c := p[pi]
 		pi++
-		switch c {
-		case '$':
-			fallthrough
-		case '*':
+		// Wildcard characters only have special meaning at the start of a token
+		wild := start && (c == '$' || c == '*' || c == '>')
+		start = c == '.'
+		switch {
+		case wild && c == '>':
+			return pi == pl
+		case wild:
 			for pi < pl && p[pi] != '.' {
 				pi++
 			}
@@ -79,8 +83,6 @@ func (p Pattern) Matches(s string) bool {
 			for si < sl && s[si] != '.' {
 				si++
 			}
-		case '>':
-			return pi == pl
 		default:
 			if c != s[si] {
 				return false
